@@ -70,6 +70,8 @@ def real_runnable(desc: dict) -> bool:
         return False  # we run as root: permission bits are not enforced on the real file system
     if fsd.get("fifos"):
         return False  # a real FIFO needs a concurrent writer
+    if fsd.get("links"):
+        return False  # listing comparison does not model links (the simulated semantics follow POSIX)
     if desc["knobs"].get("locale") != "utf-8":
         return False  # the real environment's locale is UTF-8
     if desc.get("plan"):
@@ -134,7 +136,14 @@ def compare_real(desc: dict, sim: dict, real: dict) -> list:
     senc = desc["knobs"].get("stdout_encoding", "utf-8")
     if _norm_bytes(bytes.fromhex(sim["stdout"]), senc) != _norm_bytes(real["stdout"], senc):
         diffs.append("stdout differs")
-    sim_files = {os.path.relpath(p, CWD): bytes.fromhex(h) for p, h in sim["final"]["files"].items()}
+    def _unhex(h, real_bytes):
+        if h.startswith("#sha256:"):
+            import hashlib
+
+            return real_bytes if hashlib.sha256(real_bytes).hexdigest() == h.split(":")[1] else b"<differs>"
+        return bytes.fromhex(h)
+
+    sim_files = {os.path.relpath(p, CWD): _unhex(h, real["files"].get(os.path.relpath(p, CWD), b"")) for p, h in sim["final"]["files"].items()}
     if sorted(sim_files) != sorted(real["files"]):
         diffs.append("file listing sim=%s real=%s" % (sorted(sim_files), sorted(real["files"])))
     else:
@@ -405,6 +414,7 @@ def run(repo: str, tier: str, seed: int, replay_dir=None, write_ev=True, jobs=No
             raise HarnessError("simulated processes created real files (I/O path outside the model): %s" % stray[:5])
 
         # ---- shrink + replay-verify -------------------------------------------------------
+        model_gaps = []
         by_class = {}
         for f in failures + real_viol:
             for v in f["violations"]:
@@ -447,11 +457,29 @@ def run(repo: str, tier: str, seed: int, replay_dir=None, write_ev=True, jobs=No
                 vr = verify_replay(repo, doc)
                 if not (vr["reproduced"] and vr["same_digest"]):
                     raise HarnessError("replay in a fresh interpreter did not reproduce %s (%s)" % (sig, vr["classes"]))
+                # A fault-free finding of the simulation must also be a finding of a REAL process
+                # (when the case can be run for real): otherwise the model does not cover the I/O path
+                # the code uses, and that is a defect of the machinery, never a violation.
+                if not is_real and not (mdesc.get("plan") or []) and vclass[0] in ("P1", "P3") and real_runnable(mdesc):
+                    real = run_real(repo, mdesc)
+                    jr = wg.request({"cmd": "c16_judge", "desc": mdesc, "result": real_as_result(mdesc, real)})
+                    if not any(_vc(v) == vclass for v in jr["violations"]):
+                        model_gaps.append("%s: simulated status %s (%s), real status %s; real stderr: %s" % (
+                            sig, doc.get("status"), doc.get("exc"), real["status"], real["stderr"][-200:].replace("\n", " | ")))
+                        seen_sig.discard(sig)
+                        continue
+                    doc["confirmed_by_real_process"] = True
                 violations.append((doc, sig))
                 n_sig += 1
                 if n_sig >= 3:
                     break
 
+    if model_gaps:
+        if not violations:
+            raise HarnessError("the simulation reports a fault-free violation that a real process does not show "
+                               "(the model does not cover an I/O path the code uses): %s" % model_gaps[:3])
+        for g_ in model_gaps[:5]:
+            eprint("NOTE property=C16 simulated finding not confirmed by a real process, not reported: %s" % g_)
     rc = 0
     n_viol = 0
     for doc, sig in violations:
